@@ -551,6 +551,7 @@ type Script struct {
 	OnRequest func(e *Ev, kind string, asked []string) []string // ready/ante/blinds: return the ids that respond (in that order); nil = all asked in order
 	MaxWait   time.Duration
 	StopAfterSettle bool // return right after the settled snapshot (do not wait for setup/pause)
+	Stop      func() bool // polled: return from PlayHand as soon as it reports true
 }
 
 func pidOf(t *pt.Table, gp int) string {
@@ -575,11 +576,29 @@ func (s *Sim) PlayHand(sc *Script) *Hand {
 	if wait == 0 {
 		wait = 20 * time.Second
 	}
+	deadline := time.Now().Add(wait)
 	for {
-		e, ok := s.Next(wait)
-		if !ok {
-			h.Timeout = true
-			return h
+		var e *Ev
+		var ok bool
+		if sc.Stop != nil {
+			if sc.Stop() {
+				return h
+			}
+			e, ok = s.Next(20 * time.Millisecond)
+			if !ok {
+				if time.Now().After(deadline) {
+					h.Timeout = true
+					return h
+				}
+				continue
+			}
+			deadline = time.Now().Add(wait)
+		} else {
+			e, ok = s.Next(wait)
+			if !ok {
+				h.Timeout = true
+				return h
+			}
 		}
 		if sc.OnEvent != nil {
 			sc.OnEvent(e)
